@@ -39,6 +39,10 @@ def ext(x):
     return "-inf" if x == -math.inf else fr(float(x))
 
 
+def _same_ext_lists(a, b):
+    return len(a) == len(b) and all((x == y) or (x not in ("-inf",) and y not in ("-inf",) and Fr(x) == Fr(y)) for x, y in zip(a, b))
+
+
 def run_case(case):
     I = impl()
     jax, jnp, np = I.jax, I.jnp, I.np
@@ -55,6 +59,9 @@ def run_case(case):
         k = r.randint(1, nd)
         axes = r.sample(range(nd), k)
         a = np.array([r.randint(-2, 2) for _ in range(int(np.prod(shape)))], dtype=float).reshape(shape)
+        near = r.random() < 0.3
+        if near:
+            a = np.array([r.choice([3.0 * (1 - 2e-6), 3.0, 3.0 * (1 - 4e-6), 1.0]) for _ in range(int(np.prod(shape)))]).reshape(shape)
         mk = r.choice(["none", "some", "some", "some", "all", "rowall"])
         mask = None
         if mk != "none":
@@ -74,7 +81,7 @@ def run_case(case):
         except Exception as e:  # noqa: BLE001
             vs.append({"clause": "argmax evaluates", "detail": f"shape {shape} axes {axes}: {impl_site(e)}: {str(e)[:200]}", "key": "C18:eval"})
             return out
-        req = {"op": "argmax", "a": {"shape": shape, "data": [str(int(x)) for x in a.ravel()]}, "axes": axes}
+        req = {"op": "argmax", "a": {"shape": shape, "data": [fr(float(x)) for x in a.ravel()]}, "axes": axes}
         if mask is not None:
             req["mask"] = {"shape": shape, "data": [bool(x) for x in mask.ravel()]}
         o = driver().call(req)
@@ -83,7 +90,7 @@ def run_case(case):
         mxl = [ext(x) for x in (mx.ravel() if mx.shape else [float(mx)])]
         out["evals"] = 1
         out["hist"][f"mask={mk}"] = 1
-        if list(ix.shape) != o["shape"] or ixl != o["idx"] or mxl != o["max"]:
+        if list(ix.shape) != o["shape"] or ixl != o["idx"] or not _same_ext_lists(mxl, o["max"]):
             vs.append({"clause": "flattened position of the first unmasked element equal to the masked maximum (0 and the initial value if everything is masked), together with that maximum",
                        "detail": f"array {a.tolist()} axes {axes} mask {None if mask is None else mask.tolist()} jit={jit}: implementation idx {ixl} max {mxl} shape {list(ix.shape)}; model idx {o['idx']} max {o['max']} shape {o['shape']}", "key": "C18:argmax"})
         out["sample"] = {"shape": shape, "axes": axes, "mask": mk, "jit": jit, "idx": ixl[:6], "max": mxl[:6]}
@@ -98,7 +105,12 @@ def run_case(case):
         for s, (lo, hi) in enumerate(zip([0] + cuts, cuts + [n])):
             ids += [s] * (hi - lo)
         a = np.array([r.randint(-2, 2) for _ in range(int(np.prod(shape)))], dtype=float).reshape(shape)
-        out["sig"] = f"segment nd={nd} nseg={nseg} jit={jit}"
+        near = r.random() < 0.4
+        if near:
+            # near ties: values within 1e-6 relative of each other, the smaller one *after* the larger one
+            base = np.array([r.choice([3.0, 3.0 * (1 - 2e-6), 3.0 * (1 - 4e-6), 1.0]) for _ in range(int(np.prod(shape)))]).reshape(shape)
+            a = base
+        out["sig"] = f"segment nd={nd} nseg={nseg} jit={jit} near={near}"
         f = (lambda x, s: segment_argmax(x, segment_ids=s, num_segments=nseg))
         if jit:
             f = jax.jit(f)
@@ -107,11 +119,11 @@ def run_case(case):
         except Exception as e:  # noqa: BLE001
             vs.append({"clause": "segment_argmax evaluates", "detail": f"{impl_site(e)}: {str(e)[:200]}", "key": "C18:eval"})
             return out
-        o = driver().call({"op": "segment_argmax", "a": {"shape": shape, "data": [str(int(x)) for x in a.ravel()]}, "seg_ids": ids, "num": nseg})
+        o = driver().call({"op": "segment_argmax", "a": {"shape": shape, "data": [fr(float(x)) for x in a.ravel()]}, "seg_ids": ids, "num": nseg})
         ix, mx = np.asarray(ix), np.asarray(mx)
         out["evals"] = 1
         mxl = [ext(x) for x in mx.ravel()]
-        if list(mx.shape) != o["shape"] or mxl != o["max"]:
+        if list(mx.shape) != o["shape"] or not _same_ext_lists(mxl, o["max"]):
             vs.append({"clause": "segment maximum", "detail": f"array {a.tolist()} ids {ids}: implementation {mxl}, model {o['max']}", "key": "C18:segmax"})
         else:
             # property relation: the returned row lies in the segment and attains the segment maximum
